@@ -480,6 +480,10 @@ func (d *Driver) solveAll() {
 	if len(again) == 0 {
 		return
 	}
+	// many failures mean a real break, not solver noise: then nothing is retried
+	if len(again) > 64 {
+		return
+	}
 	d.retried = len(again)
 	ch2 := make(chan *Query)
 	var wg2 sync.WaitGroup
